@@ -7,7 +7,7 @@ import trio
 import trio.testing
 from trio._util import ConflictDetector
 
-from .common import EventLog, build_config, make_socket_facts
+from .common import TICKS, EventLog, build_config, make_socket_facts
 
 
 class SimStream(trio.abc.HalfCloseableStream):
@@ -369,6 +369,7 @@ class SpinWatch(trio.abc.Instrument):
         # With the autojump clock a task that sits in a *shielded* wait past an expired deadline
         # makes the run loop poll with a zero timeout for ever (in real time it would simply
         # hang): no task steps, no progress of the clock.
+        TICKS[0] += 1
         if timeout == 0:
             self.idle_polls += 1
             if self.idle_polls > 300_000 and self.tripped is None:
@@ -383,6 +384,7 @@ class SpinWatch(trio.abc.Instrument):
             self.idle_polls = 0
 
     def before_task_step(self, task: Any) -> None:
+        TICKS[0] += 1
         self.idle_polls = 0
         now = trio.current_time()
         if now != self.at:
